@@ -140,7 +140,7 @@ impl Scenario for Static {
             ("corpus", Tier::Quick) => 40,
             ("corpus", Tier::Thorough) => 1_500,
             (_, Tier::Quick) => 2_500,
-            (_, Tier::Thorough) => 80_000,
+            (_, Tier::Thorough) => 120_000,
         }
     }
     fn shrink_paths(&self) -> Vec<&'static str> {
